@@ -78,6 +78,29 @@ def run_impl(k, n, script):
     return [v[1] for v in rs.value], rs.n, src.ranges
 
 
+def run_impl_accumulators(k, n, script):
+    """observations that are themselves accumulators (per-chunk Counters, Means, reservoirs): each is ONE observation"""
+    import generatorpipeline.accumulators as A
+    rs = A.ReservoirSampling(length=k)
+    src = Scripted(script)
+    old = A.random
+    A.random = src
+    # (not reservoirs: an operand of the accumulator's own class is a merge request by the dispatch rule, and that is refused)
+    obs = [[A.Counter(i % 4), A.Mean(value=1.0, n=i % 3), A.Variance(), A.Counter()][i % 4] for i in range(n)]
+    try:
+        for o in obs:
+            rs.accumulate(o)
+    except Exception as e:  # noqa
+        return ['!%s' % type(e).__name__], -1
+    finally:
+        A.random = old
+    pos = []
+    for v in rs.value:
+        hit = [i for i, o in enumerate(obs) if o is v]
+        pos.append(hit[0] if hit else 'foreign:%r' % (v,))
+    return pos, rs.n
+
+
 def run_impl_iterators(k, n, script):
     """like run_impl, but every observation is itself an iterator (a generator over a few values): it is ONE observation, kept or
     dropped as a whole, never looked into. Returns (retained positions by identity, n, how many observations were advanced)"""
@@ -160,6 +183,12 @@ def check(ctx):
             if (res4, cnt4) != (res, cnt) or consumed:
                 ctx.fail('reservoir-looks-into-observation', 'with observations that are iterators the reservoir holds positions %s (n=%s, %d observations '
                          'advanced); with ordinary objects %s (n=%s)' % (res4, cnt4, consumed, res, cnt), dict(case, observations='iterators'))
+        if n >= 1 and rng.random() < 0.5:
+            res5, cnt5 = run_impl_accumulators(k, n, draws)
+            ctx.count('accumulator_observations')
+            if (res5, cnt5) != (res, cnt):
+                ctx.fail('reservoir-looks-into-observation', 'with observations that are accumulators the reservoir holds positions %s (n=%s); with '
+                         'ordinary objects %s (n=%s)' % (res5, cnt5, res, cnt), dict(case, observations='accumulators'))
         if n >= 2:
             # an accumulator that is polled while it runs (live display) reports, each time, what an accumulator that saw only
             # that prefix reports, and ends like the one that was never read
